@@ -50,6 +50,38 @@ def _reach_fact_about_source(n: ast.AST) -> bool:
     return False
 
 
+def g5_changed_means_changed(ctx: Ctx):
+    """`simplify` runs its passes until none reports a change, so a pass that reports one must have made one.  Copy
+    propagation schedules `x = y` when x is used and then says "changed"; but a use is a read, an element store
+    `x[i] = e` or a call `x(..)` (the `UseSite` alias of define_use), and the substitution rewrites only the kinds
+    `_SubstVar` overrides a visitor for.  The scheduling test must ask for a use of one of those kinds."""
+    DU = 'fpy2/analysis/define_use.py'
+    alias = ctx.repo.module(DU).toplevel().get('UseSite')
+    kinds = {n.id for n in ast.walk(getattr(alias, 'value', ast.Constant(None))) if isinstance(n, ast.Name)} - {'TypeAlias'}
+    if not kinds:
+        raise ShapeError('UseSite alias not read')
+    sv = ctx.repo.cls(SUBST, '_SubstVar')
+    overridden = {f.name for f in sv.body if isinstance(f, ast.FunctionDef)}
+    visitor_of = {'Var': '_visit_var', 'IndexedAssign': '_visit_indexed_assign', 'Call': '_visit_call'}
+    rewritten = {k for k in kinds if visitor_of.get(k) in overridden}
+    fn = ctx.fn(COPY, 'CopyPropagate.apply_with_status')
+    inserts = [s for s in walk_no_nested(fn) if isinstance(s, ast.Assign) and isinstance(s.targets[0], ast.Subscript) and dotted(s.targets[0].value) == 'prop']
+    parents = parent_map(fn)
+    for ins in inserts:
+        gs = [g for g, arm in guards_of(fn, ins, parents) if arm == 'then' and 'def_use.uses[d]' in norm(g)]
+        asked: set[str] = set()
+        for g in gs:
+            for k in ast.walk(g):
+                if isinstance(k, ast.Call) and call_name(k) == 'isinstance' and len(k.args) == 2:
+                    asked |= {n.id for n in ast.walk(k.args[1]) if isinstance(n, ast.Name)}
+        ok = bool(gs) and bool(asked) and asked <= rewritten
+        ctx.check(ok, COPY, ins, 'CopyPropagate.apply_with_status', f'a copy is scheduled only when it has a use the substitution rewrites ({sorted(rewritten)} of the use kinds {sorted(kinds)})',
+                  f'scheduled under {[norm(g) for g in gs] or "no test of its uses"}: `ys = xs; ys[0] = e` reports a change that changes nothing, and simplify never stops')
+    rets = [norm(r.value) for r in walk_no_nested(fn) if isinstance(r, ast.Return)]
+    ctx.check('(func, False)' in rets and '(func, True)' in rets and 'if not prop: return (func, False)' in norm(fn, 6000).replace('\n', ' '), COPY, fn, 'CopyPropagate.apply_with_status',
+              'nothing scheduled -> unchanged', f'returns {rets}')
+
+
 def g1_copy_propagation(ctx: Ctx):
     q = 'CopyPropagate.apply_with_status'
     fn = ctx.fn(COPY, q)
@@ -438,6 +470,7 @@ RULES = [
     Rule('C07.G1', 'copy propagation consults the reaching definition of the source; substitution keyed by definition', g1_copy_propagation, 6, 'G'),
     Rule('C07.G2', 'list values are recorded / materialised only with a store-or-alias fact', g2_heap_values, 2, 'G,S'),
     Rule('C07.G3', 'dead code: every removal under an accepted justification; unused = no uses + no live phi + pure', g3_dead_code, 14, 'G'),
+    Rule('C07.G5', 'a pass reports a change only when it made one (copy propagation schedules a copy only for a use it rewrites), so the fixed point is reached', g5_changed_means_changed, 2, 'G'),
     Rule('C07.P1', 'an analysis handed to a simplification pass along with a function is the analysis of that function', analysis_pairing((SUBST, DCE, COPY, FOLD, 'fpy2/transform/simplify_if.py'), 3), 3, 'P'),
     Rule('C07.X1', 'purity defaults: unknown, foreign, impure callees and parameter stores are impure', x1_purity, 9, 'X'),
     Rule('C07.G4', 'folding only under a statically known context; constructors under REAL', g4_fold_context, 11, 'G'),
@@ -454,8 +487,8 @@ MUTANTS = [
     Mutant('unknown-loop-entry-is-the-unit', 'fpy2/analysis/partial_eval.py', "                lhs = self.by_def.get(self.def_use.defs[phi.lhs], _TOP)\n                rhs = self.by_def.get(self.def_use.defs[phi.rhs], _TOP)\n                new",
            "                lhs = self.by_def.get(self.def_use.defs[phi.lhs])\n                rhs = self.by_def.get(self.def_use.defs[phi.rhs], _TOP)\n                new", 'C07.D1', 'seeded change C07a'),
     Mutant('copy-prop-checks-source (repair twin)', COPY,
-           "                if len(def_use.uses[d]) > 0:\n                    # optimization: only propagate if there is at least one use\n                    prop[d] = d.site.expr",
-           "                src = def_use.find_def_from_use(d.site.expr)\n                if len(def_use.uses[d]) > 0 and all(def_use.reach[u][src.name] is src for u in ()):\n                    prop[d] = d.site.expr",
+           "                if any(isinstance(u, Var) for u in def_use.uses[d]):",
+           "                src = def_use.find_def_from_use(d.site.expr)\n                if any(isinstance(u, Var) for u in def_use.uses[d]) and all(def_use.reach[u][src.name] is src for u in ()):",
            'C07.G1', 'consulting the reaching definition of the source satisfies the rule', expect='silent'),
     Mutant('subst-by-name', SUBST, "        d = self.def_use.find_def_from_use(e)\n        if d in self.subst:\n            return self.subst[d]",
            "        for d in self.subst:\n            if d.name == e.name:\n                return self.subst[d]", 'C07.G1'),
@@ -470,6 +503,9 @@ MUTANTS = [
     Mutant('dce-if-true-dropped', DCE, "            if stmt.cond.val:\n                # if True: ... -> ...\n                # return the block directly\n                self.eliminated = True\n                body, _ = self._visit_block(stmt.body, ctx)\n                return body, ctx\n            else:",
            "            if not stmt.cond.val:\n                self.eliminated = True\n                body, _ = self._visit_block(stmt.body, ctx)\n                return body, ctx\n            else:", 'C07.G3'),
     Mutant('dce-stale-defuse', DCE, "            self.def_use = DefineUse.analyze(self.func)\n", "            pass\n", 'C07.G3'),
+    Mutant('copy-scheduled-for-any-use', COPY, "                if any(isinstance(u, Var) for u in def_use.uses[d]):", "                if len(def_use.uses[d]) > 0:", 'C07.G5',
+           'finding F63 before its repair: simplify does not terminate on `ys = xs; ys[0] = 5.0; return xs[0]`'),
+    Mutant('copy-scheduled-for-stores-too', COPY, "                if any(isinstance(u, Var) for u in def_use.uses[d]):", "                if any(isinstance(u, Var | IndexedAssign) for u in def_use.uses[d]):", 'C07.G5'),
     Mutant('unknown-call-pure', PURITY, "            case None:\n                # unknown function -> impure by default\n                raise _ImpureError(f'Impure: Unknown function call {e}')", "            case None:\n                pass", 'C07.X1'),
     Mutant('foreign-call-pure', PURITY, "            case _:\n                # any other foreign callable (e.g. `print`) -> impure by default\n                raise _ImpureError(f'Impure: call to foreign function {e}')", "            case _:\n                pass", 'C07.X1'),
     Mutant('param-store-pure', PURITY, "            case Argument() | FuncDef():\n                return True", "            case FuncDef():\n                return True", 'C07.X1'),
